@@ -1121,3 +1121,77 @@ def check_sizeof_agreement(chk, prog, unit, rule="S1"):
                                                    "cleared (the rest keeps whatever the allocator left there)" if "set" in cn else "covered"),
                        proof="sizeof(%s) == element size %d" % (so.get("of", "?"), ps))
     return n
+
+
+def check_stack_field_release(chk, prog, unit, push_fn="spifconf_register_fstate", idx_global="fstate_idx", table="fstate", rule="L5"):
+    """What a stack entry owns is released when the entry is popped.  For every field F of the file stack that some push site
+    fills with a block the pushing function owns (a local whose every definition is an allocation or a call that hands out a
+    fresh block: the word extracted for %include, the strdup'ed output file name of %preproc), a release of
+    `table[idx].F` precedes a pop of the stack in some function of the unit; without one the block is lost with the entry."""
+    from . import own
+    g = unit.functions.get(push_fn)
+    if g is None or g.body is None:
+        raise AnalysisBroken("push function %s not found" % push_fn)
+    # parameter -> field it is stored into
+    field_of = {}
+    for x in walk(g.body):
+        if x.get("k") == "assign" and x.get("op") == "=":
+            l, r = X.strip(x["ch"][0]), X.strip(x["ch"][1])
+            if l.get("k") == "member" and r is not None and r.get("k") == "ref" and r.get("rk") == "param":
+                field_of[r.get("pi")] = l["n"]
+    owned_pushes = {}
+    for f in unit.functions.values():
+        if f.body is None:
+            continue
+        defs = {}
+        for x in walk(f.body):
+            if x.get("k") == "assign" and X.strip(x["ch"][0]).get("k") == "ref":
+                defs.setdefault(X.strip(x["ch"][0])["d"], []).append(x["ch"][1] if x.get("op") == "=" else None)
+            elif x.get("k") == "decl":
+                for dc in x.get("decls", ()):
+                    if dc.get("init") is not None:
+                        defs.setdefault(dc["d"], []).append(dc["init"])
+
+        def hands_out(e):
+            e = X.strip(e)
+            if e is None or e.get("k") != "call":
+                return False
+            if nullness.fresh_call(e):
+                return True
+            h = prog.fn(X.callee_name(e) or "") if X.callee_name(e) else None
+            return h is not None and own.returns_fresh(prog, h)
+        for c in X.calls_in(f.body):
+            if X.callee_name(c) != push_fn:
+                continue
+            for j, a in enumerate(c["ch"][1:]):
+                sa = X.strip(a)
+                if j in field_of and sa is not None and sa.get("k") == "ref" and sa.get("rk") == "local":
+                    ds = defs.get(sa["d"], [])
+                    ds = [d_ for d_ in ds if d_ is None or not X.is_null_const(d_)]       # FREE(p) also stores NULL
+                    if ds and all(d_ is not None and hands_out(d_) for d_ in ds):
+                        owned_pushes.setdefault(field_of[j], []).append((f, c))
+    n = 0
+    for fld, sites in sorted(owned_pushes.items()):
+        n += 1
+        released = False
+        where = None
+        for f in unit.functions.values():
+            if f.body is None:
+                continue
+            pops = [m for m in walk(f.body) if is_dec_of(m, idx_global)]
+            if not pops:
+                continue
+            for c in X.calls_in(f.body):
+                if own.release_kind(c) != "free" or not c["ch"][1:]:
+                    continue
+                a = X.strip(c["ch"][1])
+                if a is not None and a.get("k") == "member" and a.get("n") == fld and any(glob_ref(y, table) is not None for y in walk(a)):
+                    if any(c["i"] < p_["i"] for p_ in pops):
+                        released = True
+                        where = f
+        f0, c0 = sites[0]
+        chk.ob(rule, f0.name, "popped-entry-releases:" + fld, released, loc=f0.loc(c0),
+               detail="%s pushes a block it owns (%s) as the `%s` of a file-stack entry, and no function releases %s[..].%s before popping "
+                      "the entry: the block is lost every time such an entry is popped" % (f0.name, X.render(c0["ch"][1:][[k_ for k_, v_ in field_of.items() if v_ == fld][0]])[:30], fld, table, fld),
+               proof="released before the pop in %s" % (where.name if where else "?"))
+    return n
